@@ -119,11 +119,13 @@ def gen_cases(ctx):
             if ctx_mode == 'positional-misnamed' and (len(sig) > 2 or any(k == 'pk' and d for k, d in sig)):
                 continue
             for inj in (False, True, 'annotated'):
-                for flavour in ('function', 'view'):
-                    if flavour == 'view' and ctx_mode != 'none':
+                for flavour in ('function', 'view', 'view-static', 'view-class'):
+                    if flavour.startswith('view') and ctx_mode != 'none':
                         continue      # views take the context through their constructor
+                    if flavour in ('view-static', 'view-class') and (inj or len(sig) > 3):
+                        continue
                     for validator in ('base', 'pydantic', 'pydantic-extra-ignore'):
-                        if validator != 'base' and (flavour == 'view' or len(sig) > 3 or ctx_mode == 'positional-misnamed'):
+                        if validator != 'base' and (flavour.startswith('view') or len(sig) > 3 or ctx_mode == 'positional-misnamed'):
                             continue
                         yield dict(sig=sig, ctx=ctx_mode, inj=inj, flavour=flavour, validator=validator)
                         if sig and validator != 'pydantic-extra-ignore' and len(sig) <= 3:
@@ -190,11 +192,19 @@ def run_case(case, rec):
         if vkind == 'base':
             validator = BaseValidator(exclude_param=pred) if inj else None
         else:
-            validator = PydanticValidator(exclude_param=pred if inj else None, **({'extra': 'ignore'} if vkind.endswith('ignore') else {}))
-        if flavour == 'view':
-            fn, src = make_fn(sig, log, 'none', inj, is_method=True, nullable=bool(case.get('nullable')))
+            # ONE validator object per configuration serves every program of this process (all handlers are called 'f')
+            vkey = (vkind, inj)
+            if vkey not in _LONG_LIVED:
+                _LONG_LIVED[vkey] = PydanticValidator(exclude_param=pred if inj else None, **({'extra': 'ignore'} if vkind.endswith('ignore') else {}))
+            validator = _LONG_LIVED[vkey]
+        if flavour in ('view', 'view-static', 'view-class'):
+            fn, src = make_fn(sig, log, 'none', inj, is_method=(flavour != 'view-static'), nullable=bool(case.get('nullable')))
             if validator:
                 fn = validator.validate(fn)
+            if flavour == 'view-static':
+                fn = staticmethod(fn)
+            elif flavour == 'view-class':
+                fn = classmethod(fn)
 
             class V(pjrpc.server.ViewMixin):
                 def __init__(self, context=None):
